@@ -294,7 +294,9 @@ MonStep(m, e) ==
          [] e.ev = "Wire"   -> ObsWire(m, e)
          [] e.ev = "Done"   -> ObsDone(m, e)
          [] e.ev = "Sample" -> ObsSample(m, e)
-         [] e.ev = "Env"    -> m
+         \* (driver observation: an asynchronous read called with no frame queued returned without having
+         \*  completed and without a transport read in place - it sits behind somebody else's write)
+         [] e.ev = "Env"    -> IF e.k = "read-not-started" THEN Fail(m, "C17/read-behind-write", m) ELSE m
          [] e.ev = "End"    -> ObsEnd(m, e)
          [] OTHER           -> Fail(m, "C08/harness/unknown-event", m)
 
